@@ -54,7 +54,7 @@ def run_case(case, res):
     rng = random.Random(case["seed"])
     npr = np.random.RandomState(case["seed"] % 2 ** 31)
     tier = case.get("tier", "quick")
-    d = 2 if (tier == "quick" or rng.random() < 0.7) else 3
+    d = rng.choice([2, 2, 2, 2, 2, 2, 2, 3, 3, 4])     # data with three or more features as well
     k = rng.choice([2, 2, 3, 4])
     n = rng.choice([40, 80, 120, 200])
     X, y = gen_labelled(rng, npr, d, k, n)
@@ -67,6 +67,9 @@ def run_case(case, res):
     cfg = {"d": d, "classes": k, "n": n, "unlabelled_in_learning": with_unl, "split": split, "split_evenly": rng.random() < 0.5,
            "shuffle": rng.random() < 0.5, "mode": rng.choice(["standard", "standard", "dimwise"]), "masslumping": rng.random() < 0.5,
            "one_vs_others": rng.random() < 0.3, "lambda": rng.choice([0.0, 0.01, 0.1]), "lmax": rng.choice([2, 3, 4])}
+    if d >= 3:
+        cfg["lmax"] = min(cfg["lmax"], 3)
+        res.count("three_or_more_features")
     if d == 2 and cfg["mode"] == "standard" and rng.random() < 0.1:
         cfg["lmax"], cfg["masslumping"] = 8, True     # component grids above the 200-point switch (255 x 1 ...)
         res.count("large_component_grids")
